@@ -181,6 +181,10 @@ func (r *R) run(cs *Case) {
 		r.verify(cs)
 	case "key":
 		r.keyKind(cs)
+	case "key-pem":
+		r.pemVerify(cs)
+	case "alias":
+		r.aliasHistory(cs)
 	default:
 		r.c.Broken("unknown case kind %q", cs.Kind)
 	}
@@ -194,6 +198,7 @@ func (r *R) sctRT(cs *Case) {
 	ref, expressible := encSCT(v)
 	tag := sizeTag(v.Ver, v.Ext, v.Sig)
 	r.evals++
+	r.sctJSON(cs, cs.Pkg, v, tag)
 	if cs.Pkg == "x509/ct" {
 		// no serialiser in this package: the harness encoder is the serialiser
 		if !expressible {
@@ -313,7 +318,9 @@ func (r *R) dsRT(cs *Case) {
 		r.h["ds-rt "+a.name+": marshal error: "+errClass(err)]++
 		if expressible {
 			r.viol(fn+": refuses an RFC-valid value ["+tag+"]", cs, err.Error())
+			return
 		}
+		r.dsJSON(cs, a.name, v, tag) // must fail too
 		return
 	}
 	r.h["ds-rt "+a.name+": marshalled"]++
@@ -357,8 +364,15 @@ func (r *R) dsRT(cs *Case) {
 	}
 	if derr != nil || dsEqual(v, v3) != "" {
 		r.viol(a.name+".DigitallySigned.Base64String: does not round-trip through FromBase64String ["+tag+"]", cs, fmt.Sprint(derr, " ", dsEqual(v, v3)))
+		return
+	}
+	if jsonIDs[v.Hash] && jsonIDs[v.Alg] {
+		// the JSON form is the quoted base64 of the same bytes: the 12 x 12 boundary ids x every signature length
+		r.dsJSON(cs, a.name, v, tag)
 	}
 }
+
+var jsonIDs = map[byte]bool{0: true, 1: true, 2: true, 3: true, 4: true, 5: true, 6: true, 7: true, 127: true, 128: true, 254: true, 255: true}
 
 // ---------------------------------------------------------------------------
 // decoders on harness-made bytes. Bytes the reference decoder calls
@@ -377,7 +391,7 @@ func (r *R) checkSCTDecode(cs *Case, a *api, b []byte, what string) {
 	}
 	if st == stBad {
 		if err == nil {
-			r.observe(fn+" accepts malformed bytes ("+why+")", cs)
+			r.viol(fn+": accepts bytes that are not the serialisation of any value ("+why+")", cs, fmt.Sprintf("decoded version=%d ext=%d sig=%d bytes", got.Ver, len(got.Ext), len(got.Sig)))
 		} else {
 			r.h["sct-bytes "+a.name+": malformed rejected ("+why+")"]++
 		}
@@ -414,7 +428,7 @@ func (r *R) dsBytes(cs *Case) {
 	}
 	if st == stBad {
 		if err == nil {
-			r.observe(fn+" accepts malformed bytes ("+why+")", cs)
+			r.viol(fn+": accepts bytes that are not the serialisation of any value ("+why+")", cs, fmt.Sprintf("decoded sig=%d bytes", len(got.Sig)))
 		} else {
 			r.h["ds-bytes "+a.name+": malformed rejected ("+why+")"]++
 		}
@@ -449,7 +463,7 @@ func (r *R) leafBytes(cs *Case) {
 	}
 	if st == stBad {
 		if err == nil {
-			r.observe(fn+" accepts malformed bytes ("+why+")", cs)
+			r.viol(fn+": accepts bytes that are not the serialisation of any value ("+why+")", cs, "")
 		} else {
 			r.h["leaf-bytes: malformed rejected ("+why+")"]++
 		}
@@ -472,7 +486,11 @@ func (r *R) leafBytes(cs *Case) {
 	case len(cs.Bytes)-rd.Len() != consumed:
 		r.viol(fn+": consumes a different number of bytes than the structure has", cs, fmt.Sprintf("consumed %d, structure %d", len(cs.Bytes)-rd.Len(), consumed))
 	case st == stZero:
-		r.observe(fn+" accepts a zero-length ASN.1Cert (RFC 6962: <1..2^24-1>)", cs)
+		if !bytes.Equal(encLeaf(leafSpec{V: got}), cs.Bytes[:consumed]) {
+			r.viol(fn+": accepts a zero-length ASN.1Cert and the value it returns re-serialises to other bytes", cs, "")
+			return
+		}
+		r.observe(fn+" accepts a zero-length ASN.1Cert (RFC 6962: <1..2^24-1>); re-serialises to the same bytes", cs)
 	default:
 		r.h[fmt.Sprintf("leaf-bytes: decoded (entry type %d)", want.EntryType)]++
 	}
@@ -501,7 +519,8 @@ func (r *R) chainBytes(cs *Case) {
 	}
 	if st == stBad {
 		if err == nil {
-			r.observe(fn+" accepts malformed bytes ("+why+")", cs)
+			// criterion: re-serialising what the decoder returned does not give these bytes back
+			r.viol(fn+": accepts bytes that are not the serialisation of the value it returns ("+why+")", cs, fmt.Sprintf("%d certificates returned", len(got)))
 		} else {
 			r.h[cs.Kind+": malformed rejected ("+why+")"]++
 		}
@@ -523,7 +542,15 @@ func (r *R) chainBytes(cs *Case) {
 	case !certsEqual(want, g):
 		r.viol(fn+": well-formed chain decodes to a different value", cs, fmt.Sprintf("got %d certificates, want %d", len(g), len(want)))
 	case st == stZero:
-		r.observe(fn+" accepts a zero-length ASN.1Cert (RFC 6962: <1..2^24-1>)", cs)
+		re := encCertList(g, 0)
+		if cs.Kind == "chainp-bytes" {
+			re = append(putVec(nil, g[0], 3), encCertList(g[1:], 0)...)
+		}
+		if !bytes.Equal(re, cs.Bytes) {
+			r.viol(fn+": accepts a zero-length ASN.1Cert and the value it returns re-serialises to other bytes", cs, "")
+			return
+		}
+		r.observe(fn+" accepts a zero-length ASN.1Cert (RFC 6962: <1..2^24-1>); re-serialises to the same bytes", cs)
 	default:
 		r.h[fmt.Sprintf("%s: decoded (%d certificates)", cs.Kind, len(want))]++
 	}
@@ -537,6 +564,9 @@ var (
 	stdPriv  = map[string]crypto.Signer{}
 	verifier = map[string]*ct.SignatureVerifier{}
 	keyNames = []string{"rsa2048", "rsa2048b", "p256", "p256b"}
+	// bigKeys: larger RSA log keys (RFC 6962 §2.1.4: "RSA signatures ... using a key of at least 2048 bits");
+	// verifiers exist for them, they are used by the reduced sweep of part C only.
+	bigKeys = []string{"rsa3072", "rsa4096"}
 )
 
 func algFor(key string) byte {
@@ -547,7 +577,7 @@ func algFor(key string) byte {
 }
 
 func initKeys(c *ev.Ctx) {
-	for _, n := range keyNames {
+	for _, n := range append(append([]string{}, keyNames...), bigKeys...) {
 		var zpub crypto.PublicKey
 		if strings.HasPrefix(n, "rsa") {
 			k := fx.StdRSA(n)
@@ -629,11 +659,19 @@ func (r *R) keyKind(cs *Case) {
 			return
 		}
 		if err != nil {
-			r.observe("ct.NewSignatureVerifier refuses *crypto/rsa.PublicKey (2048 bit) — the type ct.PublicKeyFromPEM returns for RSA logs", cs)
+			r.viol("ct.NewSignatureVerifier: refuses *crypto/rsa.PublicKey (2048 bit), the type ct.PublicKeyFromPEM returns for RSA logs", cs, err.Error())
 		} else {
 			r.h["key: std rsa accepted"]++
 		}
 		return
+	case "std-rsa1024":
+		pk = &fx.StdRSA("rsa1024").PublicKey
+	case "typed-nil-std-rsa":
+		pk = (*stdrsa.PublicKey)(nil)
+		malformedValue = true
+	case "typed-nil-ecdsa":
+		pk = (*ecdsa.PublicKey)(nil)
+		malformedValue = true
 	case "zrsa-nil-modulus":
 		pk = &zrsa.PublicKey{E: big.NewInt(65537)}
 		malformedValue = true
@@ -661,9 +699,8 @@ func (r *R) keyKind(cs *Case) {
 	var err error
 	r.calls++
 	if malformedValue {
-		if p, msg, site := ev.Try(func() { v, err = ct.NewSignatureVerifier(pk) }); p {
-			r.observe("ct.NewSignatureVerifier panics on a structurally invalid Go key value @"+site+": "+ev.MsgClass(msg), cs)
-			return
+		if !r.guard(cs, "ct.NewSignatureVerifier", func() { v, err = ct.NewSignatureVerifier(pk) }) {
+			return // a panic is a violation: the constructor returns an error for keys it cannot use
 		}
 		if err == nil {
 			r.viol("ct.NewSignatureVerifier: accepts a key value without key material", cs, cs.Key)
